@@ -13,7 +13,7 @@ SPEC = dict(
                "one word 40,000-70,000 times in one field; one history in five plants pairs of words that collide under a common 32-bit hash (FNV-1a, FNV-1, "
                "CRC-32, Adler-32, djb2), one in an entry, the other in the query; a step reloads the same entries twice, the second time with words re-filed "
                "between their fields (keyword to tag, two keywords joined, word moved from command to description), and after every replacement the commands "
-               "held must be the ones handed over.",
+               "held must be the ones handed over. Request words also come with punctuation glued on (!word, word?, (word), +word, ~~word ...): to index and scan a punctuation mark is a separator.",
     level_note="Trusted: the reference tokenizer (ASCII alphanumeric runs, lower-cased, <2 bytes and nlp.StopWords() dropped) and BM25F formula; "
                "k1/w/b/minIDF are read through the verif hook so re-tuning is followed. Only generated inputs/histories are decided.",
     engines=[dict(name="indexscan", shards=T(16, 16), timeout=T(900, 3600))],
